@@ -104,6 +104,14 @@ PlaceFinger(r) ==
              \cup (IF \E d \in Rng(r.newdirs) : SubSeq(d, Len(d) - 3, Len(d)) # ":755" THEN {<<"C15", "dir-mode", "", r.id>>} ELSE {})
              \cup (IF \E f \in Rng(r.created) : ~f.header \/ f.constraint # "!goverter" THEN {<<"C16", "header-or-constraint", "place", r.id>>} ELSE {}))
 
+\* ---------------------------------------------------------------- header under the two flags (C16)
+\* the constraint line is the configured one; it is omitted only when configured empty; unconfigured it is !goverter whatever the tags
+HdrExpect(r) == IF r.consflag = "absent" THEN "!goverter" ELSE IF r.consflag = "empty" THEN "" ELSE r.consflag
+HdrFinger(r) ==
+  IF r.exit # 0 THEN {<<"C16", "clean-tree-generation-failed", r.tagflag \o "/" \o r.consflag, r.id>>}
+  ELSE IF ~r.out.exists \/ ~r.out.header THEN {<<"C16", "header-or-constraint", "hdr-missing", r.id>>}
+  ELSE IF r.out.constraint # HdrExpect(r) THEN {<<"C16", "header-or-constraint", "tags=" \o r.tagflag \o " constraint=" \o r.consflag, r.id>>} ELSE {}
+
 \* ---------------------------------------------------------------- argument vectors
 ArgvFinger(r) ==
   LET p == Parse(r.argv) changed == r.created # <<>> \/ r.modified # <<>> \/ r.deleted # <<>> IN
@@ -135,7 +143,7 @@ Next == \/ /\ phase = 1 /\ l <= Len(Obs)
               IF r.kind = "hist"
               THEN LET h == HistFinger(r, memo) IN
                    /\ bad' = bad \cup {<<x[1], x[2], x[3]>> : x \in h.fp} /\ EmitFP(h.fp)
-              ELSE LET f == IF r.kind = "place" THEN PlaceFinger(r) ELSE IF r.kind = "prog" THEN ProgFinger(r) ELSE ArgvFinger(r) IN
+              ELSE LET f == IF r.kind = "place" THEN PlaceFinger(r) ELSE IF r.kind = "prog" THEN ProgFinger(r) ELSE IF r.kind = "hdr" THEN HdrFinger(r) ELSE ArgvFinger(r) IN
                    /\ bad' = bad \cup {<<x[1], x[2], x[3]>> : x \in f} /\ EmitFP(f)
            /\ l' = l + 1 /\ UNCHANGED <<memo, phase>>
 Done == phase = 2 /\ l = Len(Obs) + 1
